@@ -138,4 +138,6 @@ struct C14 : Harness {
         return "";
     }
 };
+#ifndef SKV_NO_MAIN
 int main(int argc, char **argv) { C14 h; return skv_main(argc, argv, h); }
+#endif
